@@ -35,12 +35,14 @@ CONSTANTS Nil,          \* model value: "absent" / not-found
 
 VARIABLES vaas,     \* specification view: stored identifier -> tag of the bytes stored last (the live content)
           up,       \* the store is open in a running process
+          opening,  \* a process is inside db.Open (OpenBegin done, OpenEnd not yet): a kill may land here
           acked,    \* identifier -> tag of the last acknowledged write
           pending,  \* identifier -> tags written since the last acknowledgement of that identifier
           written,  \* identifier -> every tag ever stored under it (history, for NeverForeignBytes)
           ret       \* result of the last call (what the caller observed)
 
-vars == <<vaas, up, acked, pending, written, ret>>
+vars == <<vaas, up, opening, acked, pending, written, ret>>
+ctl == <<up, opening>>
 
 \* ------------------------------------------------------------------ identifiers
 Stream(i) == [ec |-> i.ec, em |-> i.em, tc |-> i.tc]
@@ -86,10 +88,10 @@ GovPrefix == <<"signed", Sep>> \o Render(GovChain) \o <<Sep, GovEm>>
 
 IsPrefix(p, k) == Len(p) <= Len(k) /\ SubSeq(k, 1, Len(p)) = p
 
-\* Badger's content given what was stored (last writer wins per key).  Exact when Key is injective (KeyInjectiveOn).
-KV == LET pairs == {<<Key(i), i>> : i \in DOMAIN vaas}         \* every key rendered once
-      IN [k \in {p[1] : p \in pairs} |-> Val((CHOOSE p \in pairs : p[1] = k)[2])]
-ScanIn(kv, p) == {k \in DOMAIN kv : IsPrefix(p, k)}
+\* Badger's content given what was stored: the set of key/value entries (last writer wins per key; exact when Key is
+\* injective, KeyInjectiveOn).  Every query below is linear in the size of the store.
+KV == {[k |-> Key(i), v |-> Val(i)] : i \in DOMAIN vaas}
+ScanIn(kv, p) == {e \in kv : IsPrefix(p, e.k)}
 
 Slashes(k) == {n \in 1..Len(k) : k[n] = Sep}
 LastSlash(k) == MaxOf(Slashes(k))
@@ -98,13 +100,15 @@ KeySeq(k) == ParseNat(SubSeq(k, LastSlash(k) + 1, Len(k)))                \* db.
 KeyTc(k) == ParseNat(SubSeq(k, PrevSlash(k) + 1, LastSlash(k) - 1))
 
 \* The queries as the code runs them, against a given key-value content kv.
-GetIn(kv, i) == IF Key(i) \in DOMAIN kv THEN kv[Key(i)] ELSE Nil
-ScanIdsIn(kv, st) == {kv[k].id : k \in ScanIn(kv, EmitterPrefix(st))}
+GetIn(kv, i) == LET key == Key(i)
+                    hits == {e \in kv : e.k = key}
+                IN IF hits = {} THEN Nil ELSE (CHOOSE e \in hits : TRUE).v
+ScanIdsIn(kv, st) == {e.v.id : e \in ScanIn(kv, EmitterPrefix(st))}
 GapIn(kv, st) == GapOf({i.seq : i \in ScanIdsIn(kv, st)})                 \* db.go reads the sequence from the value
 GovIn(kv, seqs) ==
-    {[tc |-> KeyTc(k), seq |-> KeySeq(k), val |-> kv[k]] : k \in {x \in ScanIn(kv, GovPrefix) : KeySeq(x) \in seqs}}
+    {[tc |-> KeyTc(e.k), seq |-> KeySeq(e.k), val |-> e.v] : e \in {x \in ScanIn(kv, GovPrefix) : KeySeq(x.k) \in seqs}}
 NonGovIn(kv, st, seqs) ==
-    {[seq |-> q, val |-> kv[Key(IdOf(st, q))]] : q \in {s \in seqs : Key(IdOf(st, s)) \in DOMAIN kv}}
+    {[seq |-> q, val |-> GetIn(kv, IdOf(st, q))] : q \in {s \in seqs : GetIn(kv, IdOf(st, s)) # Nil}}
 
 ImplGet(i) == LET kv == KV IN GetIn(kv, i)                        \* LET: the content is computed once per query
 ImplScanIds(st) == LET kv == KV IN ScanIdsIn(kv, st)
@@ -116,7 +120,7 @@ ImplNonGov(st, seqs) == LET kv == KV IN NonGovIn(kv, st, seqs)
 KeyInjectiveOn(I) == Cardinality({Key(i) : i \in I}) = Cardinality(I)
 GetExactOn(I) == LET kv == KV IN \A i \in I : GetIn(kv, i) = SpecGet(i)
 ScanSelectsStreamOn(S) == LET kv == KV IN \A st \in S : ScanIdsIn(kv, st) = {i \in DOMAIN vaas : Stream(i) = st}
-GovScanSelects == LET kv == KV IN {kv[k].id : k \in ScanIn(kv, GovPrefix)} = {i \in DOMAIN vaas : IsGov(i)}
+GovScanSelects == LET kv == KV IN {e.v.id : e \in ScanIn(kv, GovPrefix)} = {i \in DOMAIN vaas : IsGov(i)}
 GapIsolatedOn(S) == LET kv == KV IN \A st \in S : GapIn(kv, st) = SpecGap(st)
 BatchIsolatedOn(S, Q) == LET kv == KV IN
     \A q \in Q : /\ GovIn(kv, q) = SpecGov(q)
@@ -124,7 +128,7 @@ BatchIsolatedOn(S, Q) == LET kv == KV IN
 
 \* ------------------------------------------------------------------ actions
 Init ==
-    /\ vaas = <<>> /\ up = TRUE /\ acked = <<>> /\ pending = <<>> /\ written = <<>>
+    /\ vaas = <<>> /\ up = TRUE /\ opening = FALSE /\ acked = <<>> /\ pending = <<>> /\ written = <<>>
     /\ ret = [op |-> "Init"]
 
 \* The effect of the two state-changing calls as functions of the state, so that a trace line that packs a run
@@ -142,7 +146,18 @@ Store(v) ==
     /\ up
     /\ Becomes(StoreF(Cur, v))
     /\ ret' = [op |-> "Store", id |-> v.id]
-    /\ UNCHANGED up
+    /\ UNCHANGED ctl
+
+\* A run of Store calls that put VAAs with one tag under the sequences seqs of one stream (a whole stream written at
+\* once; the composition of Store(v) for these v - their identifiers differ, so the order does not matter).
+StoreRun(st, seqs, tag) ==
+    LET ids == {IdOf(st, q) : q \in seqs} IN
+    /\ up
+    /\ vaas' = [i \in DOMAIN vaas \cup ids |-> IF i \in ids THEN tag ELSE vaas[i]]
+    /\ pending' = [i \in DOMAIN pending \cup ids |-> IF i \in ids THEN SetAt(pending, i) \cup {tag} ELSE pending[i]]
+    /\ written' = [i \in DOMAIN written \cup ids |-> IF i \in ids THEN SetAt(written, i) \cup {tag} ELSE written[i]]
+    /\ ret' = [op |-> "StoreRun", st |-> st]
+    /\ UNCHANGED <<ctl, acked>>
 
 \* db.StoreSignedVAA on a store that is not open (a store racing with shutdown: Close, then Store), or any other call
 \* whose commit Badger refuses.  The reply decides: a call that returns nil has acknowledged the write - it is the
@@ -153,7 +168,7 @@ StoreWhileClosed(v, acknowledged) ==
     /\ IF acknowledged THEN Becomes(AckF(StoreF(Cur, v), v.id))
        ELSE Becomes([StoreF(Cur, v) EXCEPT !.vaas = vaas])
     /\ ret' = [op |-> "StoreWhileClosed", id |-> v.id, acknowledged |-> acknowledged]
-    /\ UNCHANGED up
+    /\ UNCHANGED ctl
 
 \* The caller of Store saw it return success (C16: the child printed its acknowledgement line).
 Ack(i) ==
@@ -161,19 +176,19 @@ Ack(i) ==
     /\ i \in DOMAIN vaas
     /\ Becomes(AckF(Cur, i))
     /\ ret' = [op |-> "Ack", id |-> i]
-    /\ UNCHANGED up
+    /\ UNCHANGED ctl
 
 \* db.GetSignedVAABytes / PublicrpcServer.GetSignedVAA
 Get(i) ==
     /\ up
     /\ ret' = [op |-> "Get", id |-> i, res |-> SpecGet(i)]
-    /\ UNCHANGED <<vaas, up, acked, pending, written>>
+    /\ UNCHANGED <<vaas, ctl, acked, pending, written>>
 
 \* db.FindEmitterSequenceGap / nodePrivilegedService.FindMissingMessages.
 Gap(st) ==
     /\ up
     /\ ret' = [op |-> "Gap", st |-> st, res |-> SpecGap(st)]
-    /\ UNCHANGED <<vaas, up, acked, pending, written>>
+    /\ UNCHANGED <<vaas, ctl, acked, pending, written>>
 
 \* Is rep = [missing, first, last], what a Gap call reported, the required result res?  For a stream with a stored
 \* VAA: exactly the gaps between 0 and the highest stored sequence.  For a stream without any the property only
@@ -207,7 +222,7 @@ GapBackfill(st, fills, served, failed) ==
     /\ BackfillOK(st, fills, served)
     /\ Becomes(StoreAll(Cur, fills))
     /\ ret' = [op |-> "GapBackfill", st |-> st, failed |-> failed, pre |-> SpecGap(st), filled |-> {v.id.seq : v \in fills}]
-    /\ UNCHANGED up
+    /\ UNCHANGED ctl
 \* Is rep = [missing, first, last] the report required after a backfill that filled the sequences `filled`, pre being
 \* the gaps before the call?  (For a stream that held nothing see GapReportOK: no sequence may be reported present
 \* that is not - here: that was not filled.)
@@ -226,13 +241,13 @@ BackfillReportsPostGaps == [][BackfillReportsPostGapsStep]_vars
 GovBatch(seqs) ==
     /\ up
     /\ ret' = [op |-> "GovBatch", seqs |-> seqs, res |-> SpecGov(seqs)]
-    /\ UNCHANGED <<vaas, up, acked, pending, written>>
+    /\ UNCHANGED <<vaas, ctl, acked, pending, written>>
 
 \* PublicrpcServer.GetNonGovernanceVAABatch
 NonGovBatch(st, seqs) ==
     /\ up
     /\ ret' = [op |-> "NonGovBatch", st |-> st, seqs |-> seqs, res |-> SpecNonGov(st, seqs)]
-    /\ UNCHANGED <<vaas, up, acked, pending, written>>
+    /\ UNCHANGED <<vaas, ctl, acked, pending, written>>
 
 \* What a kill may leave under identifier i: the acknowledged bytes (nothing, if none was acknowledged) or any
 \* write to i that was not acknowledged yet.
@@ -244,7 +259,7 @@ CrashOK(f) ==
 \* SIGKILL of the process (also while it is still opening the store); f is the content found afterwards.
 CrashTo(f) ==
     /\ CrashOK(f)
-    /\ up' = FALSE
+    /\ up' = FALSE /\ opening' = FALSE
     /\ vaas' = f
     /\ ret' = [op |-> "Crash"]
     /\ UNCHANGED <<acked, pending, written>>
@@ -254,14 +269,27 @@ Close ==
     /\ up
     /\ up' = FALSE
     /\ ret' = [op |-> "Close"]
-    /\ UNCHANGED <<vaas, acked, pending, written>>
+    /\ UNCHANGED <<vaas, opening, acked, pending, written>>
 
-\* db.Open on the same directory.
-Reopen ==
-    /\ ~up
-    /\ up' = TRUE
+\* db.Open on the same directory, in two steps: Open creates and writes files of its own (Badger's logs and
+\* lock, whatever db.go adds), and a kill (CrashTo) may land between any two of these writes.  OpenBegin: the
+\* process has entered Open; OpenEnd: Open has returned the handle.  Nothing stored is touched by either.
+OpenBegin ==
+    /\ ~up /\ ~opening
+    /\ opening' = TRUE
+    /\ ret' = [op |-> "OpenBegin"]
+    /\ UNCHANGED <<vaas, up, acked, pending, written>>
+OpenEnd ==
+    /\ opening
+    /\ up' = TRUE /\ opening' = FALSE
     /\ ret' = [op |-> "Reopen"]
     /\ UNCHANGED <<vaas, acked, pending, written>>
+\* an Open that ran to completion (both steps)
+Reopen ==
+    /\ ~up /\ ~opening
+    /\ up' = TRUE
+    /\ ret' = [op |-> "Reopen"]
+    /\ UNCHANGED <<vaas, opening, acked, pending, written>>
 
 \* ------------------------------------------------------------------ properties (C16)
 \* An acknowledged write is the live content until it is overwritten - across any number of kills.
@@ -271,7 +299,10 @@ NeverForeignBytes == \A i \in DOMAIN vaas : vaas[i] \in SetAt(written, i)
 NeverForeignReadStep ==
     (ret'.op = "Get" /\ ret'.res # Nil) => (ret'.res.id = ret'.id /\ ret'.res.tag \in SetAt(written, ret'.id))
 NeverForeignRead == [][NeverForeignReadStep]_vars
-ReopenAlways == ~up => ENABLED Reopen
+\* The store always reopens - also after a kill inside an earlier Open: whenever no process has it open, Open can
+\* begin, and an Open that has begun can end.
+ReopenAlways == /\ (~up /\ ~opening) => ENABLED OpenBegin
+                /\ opening => ENABLED OpenEnd
 \* A lookup of an identifier whose last write was acknowledged returns exactly that write.
 AckedReadBackStep ==
     (ret'.op = "Get" /\ ret'.id \in DOMAIN acked /\ SetAt(pending, ret'.id) = {})
